@@ -23,9 +23,9 @@ type BFS[S any, O any] struct {
 	MaxDepth int // 0 = unbounded (closure)
 	MaxState int64
 
-	seen   map[string]bfsEdge[O]
-	Closed bool
-	Depth  int
+	seen            map[string]bfsEdge[O]
+	Closed          bool
+	Depth           int
 	NStates, NTrans int64
 }
 
